@@ -5,6 +5,7 @@ d=$(realpath "$1"); p=$2; only=$3
 vd=$(dirname "$(realpath "$0")")/..
 wt=$(mktemp -d /tmp/seedtry.XXXXXX)
 git -C /repo worktree add -q --detach "$wt" HEAD || exit 2
-trap 'git -C /repo worktree remove --force "$wt" >/dev/null 2>&1; rm -rf "$wt"' EXIT
+export TMPDIR=$(mktemp -d /tmp/seedtmp.XXXXXX) # the engine's scratch module files for VERIF_REPO land here
+trap 'git -C /repo worktree remove --force "$wt" >/dev/null 2>&1; rm -rf "$wt" "$TMPDIR"' EXIT
 git -C "$wt" apply "$d/patch.diff" 2>/dev/null || git -C "$wt" apply -3 "$d/patch.diff" >/dev/null 2>&1 || { echo "patch does not apply"; exit 2; }
 cd "$vd" && VERIF_DIR="$vd" VERIF_REPO="$wt" bin/gosym check -prop "$p" -only "$only" 2>&1 | grep -E "violated:|native:|VIOLATION|^\[" | cut -c1-300 | head -${LINES_MAX:-8}
